@@ -17,6 +17,25 @@ const (
 
 var generalClasses = []string{clsRand, clsWell, clsSpec, clsGraded}
 
+// Extreme-magnitude classes (legal finite inputs that drive the scaling /
+// underflow-protection branches: Dlarfg rescaling, Dlassq / Dnrm2 scaling,
+// Dlascl users, tiny pivots). The subnormal values are rounded to the
+// subnormal grid when generated: the rounded matrix IS the input.
+const (
+	clsSub   = "subnormal" // entries ~ 2^-1046 (3e-315): every column norm is subnormal
+	clsHuge  = "huge"      // entries ~ 2^1000 (1e301)
+	clsMixed = "mixed"     // columns cycle through subnormal, O(1) and huge scale
+)
+
+var extremeClasses = []string{clsSub, clsHuge, clsMixed}
+
+func isExtreme(cls string) bool { return cls == clsSub || cls == clsHuge || cls == clsMixed }
+
+const (
+	subExp  = -1046
+	hugeExp = 1000
+)
+
 // reflectLeft applies H = I - 2 v vᵀ/(vᵀv) to a from the left.
 func reflectLeft(a *ref.M, v []float64) {
 	var vv float64
@@ -99,6 +118,20 @@ func geomSpectrum(k int, kappa float64) []float64 {
 func general(r *vrt.Rand, cls string, m, n int) (a *ref.M, kappa float64) {
 	k := min(m, n)
 	switch cls {
+	case clsSub, clsHuge, clsMixed:
+		a = ref.FromFunc(m, n, func(i, j int) float64 { return r.Uniform(0.25, 1) * float64(1-2*r.Intn(2)) })
+		for i := 0; i < m; i++ {
+			for j := 0; j < n; j++ {
+				e := subExp
+				if cls == clsHuge || (cls == clsMixed && j%3 == 2) {
+					e = hugeExp
+				} else if cls == clsMixed && j%3 == 1 {
+					e = 0
+				}
+				a.D[i*n+j] = math.Ldexp(a.D[i*n+j], e)
+			}
+		}
+		return a, math.Inf(1)
 	case clsRand:
 		return ref.FromFunc(m, n, func(i, j int) float64 { return r.Sym() }), math.Inf(1)
 	case clsWell:
